@@ -192,6 +192,33 @@ class Ctx:
             shutil.rmtree(self._tmp, ignore_errors=True)
             self._tmp = None
 
+    # Every Experiment creates a "shadow" directory tree under /tmp/chpc-<user>-shadow and nothing ever removes it:
+    # millions of cases would exhaust the inodes of /tmp. The harness gives each process its own shadow root inside its
+    # scratch area and empties it after every case.
+    def redirect_shadow(self):
+        try:
+            import experiment.model.storage as S
+        except Exception:
+            return
+        root = os.path.join(self.tmproot(), "shadow")
+        os.makedirs(root, exist_ok=True)
+        self._shadow_root = root
+
+        def temporaryShadow(cls, name):
+            os.makedirs(root, exist_ok=True)
+            return S.ExperimentShadowDirectory(name, root)
+        S.ExperimentShadowDirectory.temporaryShadow = classmethod(temporaryShadow)
+
+    def purge_shadow(self):
+        root = getattr(self, "_shadow_root", None)
+        if not root:
+            return
+        try:
+            for e in os.scandir(root):
+                shutil.rmtree(e.path, ignore_errors=True)
+        except OSError:
+            pass
+
 
 def quiet_logging():
     import logging
@@ -257,7 +284,10 @@ def explore(ctx: Ctx, sub: str, strategy, check: Callable[[Any, Ctx], None], exa
         def body(case):
             ctx.rec.evaluations += 1
             try:
-                run_with_watchdog(lambda: check(case, ctx), "%s/%s" % (ctx.prop, sub))
+                try:
+                    run_with_watchdog(lambda: check(case, ctx), "%s/%s" % (ctx.prop, sub))
+                finally:
+                    ctx.purge_shadow()
             except Violation as v:
                 if v.sig in ctx.excluded:
                     ctx.rec.excluded[v.sig] += 1
